@@ -21,13 +21,13 @@ def langStr : Lang → String
   | .objc => "ObjectiveC" | .objcxx => "ObjectiveCxx" | .objcxxHeader => "ObjectiveCxxHeader" | .cuda => "Cuda"
   | .rust => "Rust" | .hip => "Hip" | .ptx => "Ptx" | .cubin => "Cubin"
 
-def showRes (r : PRes) : String :=
+def showRes (clang : Bool) (r : PRes) : String :=
   match r with
   | .notCompilation => "nc"
   | .cannotCache w => s!"cc {hx w}"
   | .ok p =>
     let outs := (p.outputs.map fun (k, path, opt) => s!"{str k}:{hx path}:{if opt then 1 else 0}").toArray.qsort (· < ·) |>.toList
-    s!"ok input={hx p.input} dd={p.doubleDash} lang={langStr p.lang} cflag={hx p.cflag} outputs=[{",".intercalate outs}] dep={hl p.dep} pre={hl p.pre} common={hl p.common} arch={hl p.arch} unh={hl p.unhashed} pg={p.profileGenerate} th={match p.tooHardPP with | some t => hx t | none => "none"} regen={hl (regen p)}"
+    s!"ok input={hx p.input} dd={p.doubleDash} lang={langStr p.lang} cflag={hx p.cflag} outputs=[{",".intercalate outs}] dep={hl p.dep} pre={hl p.pre} common={hl p.common} arch={hl p.arch} unh={hl p.unhashed} pg={p.profileGenerate} th={match p.tooHardPP with | some t => hx t | none => "none"} regen={hl (regen p)} dist0={match distRegen (!clang) false p with | some d => hl d | none => "none"} dist1={match distRegen (!clang) true p with | some d => hl d | none => "none"}"
 
 partial def loop (h : IO.FS.Stream) (n bad : Nat) : IO Nat := do
   let line ← h.getLine
@@ -40,7 +40,7 @@ partial def loop (h : IO.FS.Stream) (n bad : Nat) : IO Nat := do
     let clang := kind == "clang"
     let args := if argv == "-" then [] else (argv.splitOn ",").map unhex
     let search := if clang then search2 gccArgs clangArgs else search1 gccArgs
-    let r := showRes (parseArgs search clang (pp == "true") false args (search2 gccArgs clangArgs))
+    let r := showRes clang (parseArgs search clang (pp == "true") false args (search2 gccArgs clangArgs))
     if r ≠ parts[1]! then
       IO.println s!"MISMATCH line {n}: {kind} {pp} {args.map str}\n  real : {parts[1]!}\n  model: {r}"
       loop h (n + 1) (bad + 1)
